@@ -216,7 +216,7 @@ Theorem routing_independent w x i j m a it jt :
   w_state (fst (step w {| ev_ctx := x; ev_base := BCall i m a |})) =
   w_state (fst (step w {| ev_ctx := x; ev_base := BCall j m a |})).
 Proof.
-  intros Hi Hj. unfold step. cbn [ev_base ev_ctx]. rewrite Hi, Hj.
+  intros Hi Hj. unfold step, step_core. cbn [ev_base ev_ctx releasing]. rewrite Hi, Hj.
   destruct (matcher_panics (w_cfg w) (w_state w) m a) as [sp|]; [split; reflexivity|].
   destruct (call hinfo N haccepts hdebug (w_cfg w) (w_state w) m a) as [s' act].
   destruct act; cbn; split; reflexivity.
